@@ -28,7 +28,7 @@ def plan(tier):
                 'acknowledged on that database; after every acknowledged Destroy 12 probes by 3 identities must answer '
                 'exactly as for a never-issued identifier, Locate must not list it, and all other objects must be '
                 'unchanged; a cell is (creating operation, after-restart kind) / (probe, identity)',
-        'min_monitor': {'identifiers_issued': 1000, 'destroys_acknowledged': 300, 'post_destroy_probes': 3000,
+        'min_monitor': {'destroys_acknowledged_beside_other_clients': 100, 'identifiers_issued': 1000, 'destroys_acknowledged': 300, 'post_destroy_probes': 3000,
                         'restarts': 100, 'bystander_checks': 300, 'batches_with_a_failing_last_item': 150},
         'assumptions': ['an identifier counts as issued when a success response carrying it reached the client',
                         'a child killed inside a request may or may not have committed it; identifiers it never '
@@ -38,7 +38,7 @@ def plan(tier):
 
 def cases(tier, seed):
     n = 80 if tier == 'quick' else 800
-    return [{'run': i} for i in range(n)]
+    return [{'run': i} for i in range(n)] + [{'beside': i} for i in range(16 if tier == 'quick' else 160)]
 
 
 def spellings(uid, rng):
@@ -87,7 +87,68 @@ def rows_by_uid(dump):
     return out
 
 
+def run_beside(ctx, case):
+    """Destroys while other connections are being served: one client destroys its objects one request after the other while
+    two or three others send keep-alive style traffic (Query, DiscoverVersions), reads and creations of their own, each
+    from a thread of its own with yields injected at executed lines of the package.  Every Destroy that was acknowledged
+    has destroyed: afterwards, and again after a restart, the identifier answers like a never-issued one and no Locate
+    lists it."""
+    from kv.monitors.concurrent import run_clients
+    rng = ctx.rng()
+    rig.install_clock(rig.VClock(step=0))
+    with rig.scratch_dir() as d:
+        srv = rig.Server(d + '/db.sqlite')
+        try:
+            helper = {}
+            for u in ('alice', 'bob', 'carol'):
+                h = store.register(srv, 'sym', u, rng, policy='open', state='active', names=['helper-' + u])
+                helper[u] = h.uid
+            victims = []
+            for i in range(rng.randrange(12, 25)):
+                o = store.register(srv, rng.choice(('sym', 'secret', 'opaque', 'cert')), 'alice', rng, state='pre', names=['victim-%d' % i],
+                                   groups=['vg'], real_keys=False)
+                if o is not None:
+                    victims.append(o.uid)
+            v = rng.choice(rig.VERSIONS)
+            scripts = [(('alice', None), [rig.encode_request(rig.build_request(v, [op_destroy(u)]), v) for u in victims])]
+            for other in rng.sample([('bob', None), ('carol', ['g1']), ('bob', None)], rng.randrange(2, 4)):
+                ov = rng.choice(rig.VERSIONS)
+                frames = []
+                # (most of the other connections are monitoring clients: nothing but probes, for as long as the destroys last)
+                prober = rng.random() < 0.7
+                for j in range(rng.randrange(60, 160) if prober else rng.randrange(8, 20)):
+                    k = rng.randrange(3) if prober else rng.randrange(6)
+                    op = (op_query((E.QueryFunction.QUERY_OPERATIONS,)) if k < 2 else
+                          (E.Operation.DISCOVER_VERSIONS, rig.payloads.DiscoverVersionsRequestPayload()) if k == 2 else
+                          op_locate() if k == 3 else op_get(helper[other[0]]) if k == 4 else
+                          op_register('opaque', secret_opaque(b'beside-%d' % j), common_attrs(names=['c07b-%s-%d' % (other[0], j)])))
+                    try:
+                        frames.append(rig.encode_request(rig.build_request(ov, [op]), ov))
+                    except Exception:
+                        pass
+                scripts.append((other, frames))
+            results, yields, finished = run_clients(srv, scripts, rng, name='kv-c07', prob=rng.choice((0.0, 0.02, 0.1)))
+            if not finished:
+                ctx.unsure('a client thread of a C07 beside-history did not finish within 90 s')
+                return
+            ctx.count('beside_histories')
+            ctx.count('beside_yields_injected', yields)
+            acked = [u for u, r in zip(victims, results[0]) if not isinstance(r, BaseException) and r.error is None and r.ok()]
+            ctx.count('destroys_acknowledged_beside_other_clients', len(acked))
+            for phase in ('after', 'restarted'):
+                if phase == 'restarted':
+                    srv.restart()
+                for u in acked:
+                    ctx.count('destroys_acknowledged')
+                    ctx.cell('beside', phase)
+                    check_dead(ctx, srv, u, helper, rng)
+        finally:
+            srv.close()
+
+
 def run_case(ctx, case):
+    if 'beside' in case:
+        return run_beside(ctx, case)
     rng = ctx.rng()
     clock = rig.install_clock(rig.VClock(step=1))
     with rig.scratch_dir() as d:
